@@ -214,6 +214,9 @@ def go_build(ctx, pkg="./cmd/harness", out="harness", tags="verif", race=False):
     binp = os.path.join(ctx.work, out)
     cmd = ["go", "build", "-tags", tags, "-modfile=" + modfile, "-o", binp]
     env = dict(GOENV)
+    if os.environ.get("VERIF_COVER"):
+        # measurement mode (tools/coverage.sh): which statements of /repo do the generated cases reach?
+        cmd[2:2] = ["-cover", "-coverpkg=github.com/krotik/ecal/...,verifharness/..."]
     if race:
         cmd.insert(2, "-race")
         env["CGO_ENABLED"] = "1"
